@@ -7,6 +7,7 @@ import LabtechModel.Driver.SaveCmd
 import LabtechModel.Driver.HistCmd
 import LabtechModel.Driver.ParamsCmd
 import LabtechModel.Driver.IntrCmd
+import LabtechModel.Driver.FtokCmd
 /-! Line-protocol driver: one command per input line, one observation line per command. -/
 
 def step (line : String) : String :=
@@ -21,6 +22,7 @@ def step (line : String) : String :=
   | "NORM" :: rest => Lt.Params.Cmd.handle "NORM" rest
   | "CTASKS" :: rest => Lt.Params.Cmd.handle "CTASKS" rest
   | "INTR" :: rest => Lt.IntrCmd.handle rest
+  | "FTOK" :: rest => Lt.FtokCmd.handle rest
   | _ => "bad-op"
 
 partial def loop (h : IO.FS.Stream) (out : IO.FS.Stream) : IO Unit := do
